@@ -1,11 +1,13 @@
 (** C16 (in-memory cron): proofs of the statements of CronSpec.v over the model
-    of Cron.v, plus closed counterexamples for the defects found (D26, D38,
-    D49 and the capacity drop) and satisfiability witnesses for the
-    hypotheses of the conditional theorems. *)
+    of Cron.v (the code after the repairs of D26, D38, D49 and D50), closed
+    examples showing the repaired behaviour on the traces that exhibited the
+    defects, and satisfiability witnesses for the hypotheses of the
+    conditional theorems. *)
 From Coq Require Import Sorting.Sorted Lia.
 From Verif Require Import Json Cron CronSpec.
 
 Arguments schedule : simpl never.
+Arguments c_rem : simpl never.
 
 (** * Generic facts about [run] *)
 
@@ -20,24 +22,40 @@ Proof.
   - apply IH. apply Hs. exact Hc.
 Qed.
 
-(** * [schedule] by cases *)
+(** * [c_rem], [schedule] and the Rem step by cases *)
 
-Definition sched_result (c : cron) (tl : list cjob) (armed : option Z) : cron :=
-  mkCron tl (c_inflight c) (c_susp c) (c_limit c) armed (c_fires c).
+Lemma c_rem_eq id tl infl :
+  c_rem id tl infl =
+  (fst (tl_rem id tl) || fst (mark_removed id infl),
+   snd (tl_rem id tl), snd (mark_removed id infl)).
+Proof.
+  unfold c_rem. destruct (tl_rem id tl) as [f1 tl'].
+  destruct (mark_removed id infl) as [f2 infl']. reflexivity.
+Qed.
+
+Lemma step_rem c id now :
+  step c (CRem id now) =
+  mkCron (snd (tl_rem id (c_tl c))) (snd (mark_removed id (c_inflight c)))
+         (c_susp c) (c_limit c)
+         (if fst (tl_rem id (c_tl c)) || fst (mark_removed id (c_inflight c))
+          then reset_timer (c_susp c) (snd (tl_rem id (c_tl c))) now
+          else c_armed c)
+         (c_fires c).
+Proof. unfold step. rewrite c_rem_eq. reflexivity. Qed.
 
 Lemma schedule_spec c j b now :
-  (b = true /\ c_limit c <= Z.of_nat (length (snd (tl_rem (j_id j) (c_tl c)))) /\
-   schedule c j b now = (sched_result c (snd (tl_rem (j_id j) (c_tl c))) (c_armed c), false)) \/
-  ((b = false \/ Z.of_nat (length (snd (tl_rem (j_id j) (c_tl c)))) < c_limit c) /\
+  (b = true /\ over_limit c (j_id j) = true /\ schedule c j b now = (c, false)) \/
+  ((b = false \/ over_limit c (j_id j) = false) /\
    schedule c j b now =
-     (sched_result c (tl_insert j (snd (tl_rem (j_id j) (c_tl c))))
-        (reset_timer (tl_insert j (snd (tl_rem (j_id j) (c_tl c)))) now), true)).
+     (mkCron (tl_insert j (snd (tl_rem (j_id j) (c_tl c))))
+             (snd (mark_removed (j_id j) (c_inflight c)))
+             (c_susp c) (c_limit c)
+             (reset_timer (c_susp c) (tl_insert j (snd (tl_rem (j_id j) (c_tl c)))) now)
+             (c_fires c), true)).
 Proof.
-  unfold schedule, sched_result. destruct (tl_rem (j_id j) (c_tl c)) as [f tl1]. simpl.
+  unfold schedule. rewrite c_rem_eq.
   destruct b; simpl.
-  - destruct (c_limit c <=? Z.of_nat (length tl1)) eqn:E.
-    + left. apply Z.leb_le in E. auto.
-    + right. apply Z.leb_gt in E. auto.
+  - destruct (over_limit c (j_id j)); auto.
   - right. auto.
 Qed.
 
@@ -48,10 +66,10 @@ Ltac sched :=
       let Hb := fresh "Hb" in
       let Hl := fresh "Hl" in
       destruct (schedule_spec c j b n) as [(Hb & Hl & E)|(Hl & E)];
-      [try discriminate Hb|]; rewrite E; clear E; unfold sched_result; simpl in *
+      [try discriminate Hb|]; rewrite E; clear E; simpl
   end.
 
-(** * [tl_rem], [tl_insert], [take_inflight] *)
+(** * [tl_rem], [mark_removed], [tl_insert], [take_inflight] *)
 
 Lemma tl_rem_In id l x : In x (snd (tl_rem id l)) -> In x l.
 Proof.
@@ -64,13 +82,6 @@ Lemma tl_rem_In_id id l s : In s (map j_id (snd (tl_rem id l))) -> In s (map j_i
 Proof.
   rewrite !in_map_iff. intros (x & Hx & Hin). exists x. split; auto.
   eapply tl_rem_In; eauto.
-Qed.
-
-Lemma tl_rem_length id l : (length (snd (tl_rem id l)) <= length l)%nat.
-Proof.
-  induction l as [|y r IH]; simpl; auto.
-  destruct (String.eqb (j_id y) id); simpl; auto.
-  destruct (tl_rem id r) as [f r']. simpl in *. lia.
 Qed.
 
 Lemma tl_rem_sorted id l :
@@ -102,6 +113,72 @@ Proof.
       * intros [?|?]; auto.
 Qed.
 
+Lemma tl_rem_found id l : fst (tl_rem id l) = true <-> In id (map j_id l).
+Proof.
+  induction l as [|y r IH]; simpl.
+  - split; [discriminate|tauto].
+  - destruct (String.eqb (j_id y) id) eqn:E; simpl.
+    + apply String.eqb_eq in E. tauto.
+    + apply String.eqb_neq in E. destruct (tl_rem id r) as [f r']. simpl in *.
+      rewrite IH. tauto.
+Qed.
+
+Lemma tl_rem_notfound id l : fst (tl_rem id l) = false -> snd (tl_rem id l) = l.
+Proof.
+  induction l as [|y r IH]; simpl; auto.
+  destruct (String.eqb (j_id y) id); simpl.
+  - discriminate.
+  - destruct (tl_rem id r) as [f r']. simpl in *. intros H. rewrite IH; auto.
+Qed.
+
+Lemma mark_removed_In i l j m :
+  In (j, m) (snd (mark_removed i l)) -> In (j, m) l \/ m = true.
+Proof.
+  induction l as [|[x rm] r IH]; simpl; auto.
+  destruct (mark_removed i r) as [f r']. simpl in IH.
+  destruct (String.eqb (j_id x) i && negb rm); simpl.
+  - intros [H|H]; [inversion H; auto|]. destruct (IH H); auto.
+  - intros [H|H]; auto. destruct (IH H); auto.
+Qed.
+
+Lemma mark_removed_marks id l j m :
+  In (j, m) (snd (mark_removed id l)) -> j_id j = id -> m = true.
+Proof.
+  induction l as [|[x rm] r IH]; simpl.
+  - tauto.
+  - destruct (mark_removed id r) as [f r']. simpl in IH.
+    destruct (String.eqb (j_id x) id && negb rm) eqn:E; simpl.
+    + intros [H|H] Hid; [inversion H; auto|auto].
+    + intros [H|H] Hid; auto. inversion H; subst.
+      rewrite String.eqb_refl in E. simpl in E. destruct m; auto.
+Qed.
+
+Lemma mark_removed_found id l :
+  fst (mark_removed id l) = true <->
+  exists j, In (j, false) l /\ j_id j = id /\ j_rec j = true.
+Proof.
+  induction l as [|[x rm] r IH]; simpl.
+  - split; [discriminate|]. intros (j & [] & _).
+  - destruct (mark_removed id r) as [f r']. simpl in IH.
+    destruct (String.eqb (j_id x) id) eqn:E; destruct rm; simpl.
+    + rewrite IH. split.
+      * intros (j & H1 & H2). exists j. auto.
+      * intros (j & [H1|H1] & H2); [discriminate|]. exists j. auto.
+    + apply String.eqb_eq in E. rewrite Bool.orb_true_iff, IH. split.
+      * intros [H|(j & H1 & H2)]; [exists x; auto|exists j; auto].
+      * intros (j & [H1|H1] & H2 & H3).
+        -- inversion H1; subst. auto.
+        -- right. exists j. auto.
+    + rewrite IH. split.
+      * intros (j & H1 & H2). exists j. auto.
+      * intros (j & [H1|H1] & H2); [discriminate|]. exists j. auto.
+    + apply String.eqb_neq in E. rewrite IH. split.
+      * intros (j & H1 & H2). exists j. auto.
+      * intros (j & [H1|H1] & H2 & H3).
+        -- inversion H1; subst. contradiction.
+        -- exists j. auto.
+Qed.
+
 Lemma tl_insert_In j l x : In x (tl_insert j l) <-> x = j \/ In x l.
 Proof.
   induction l as [|y r IH]; simpl.
@@ -115,12 +192,6 @@ Proof.
   induction l as [|y r IH]; simpl.
   - intuition.
   - destruct (j_next j <? j_next y); simpl; rewrite ?IH; intuition.
-Qed.
-
-Lemma tl_insert_length j l : length (tl_insert j l) = S (length l).
-Proof.
-  induction l as [|y r IH]; simpl; auto.
-  destruct (j_next j <? j_next y); simpl; auto.
 Qed.
 
 Lemma tl_insert_sorted j l :
@@ -152,21 +223,21 @@ Proof.
       * apply IH; auto.
 Qed.
 
-Lemma take_inflight_spec i l j rest :
-  take_inflight i l = Some (j, rest) ->
-  j_id j = i /\ In j l /\ forall x, In x rest -> In x l.
+Lemma take_inflight_spec i l j m rest :
+  take_inflight i l = Some (j, m, rest) ->
+  j_id j = i /\ In (j, m) l /\ forall x, In x rest -> In x l.
 Proof.
-  revert j rest. induction l as [|y r IH]; simpl; intros j rest H.
+  revert j m rest. induction l as [|[y ym] r IH]; simpl; intros j m rest H.
   - discriminate.
   - destruct (String.eqb (j_id y) i) eqn:E.
     + inversion H; subst. apply String.eqb_eq in E. auto.
-    + destruct (take_inflight i r) as [[z r']|]; [|discriminate].
-      inversion H; subst. destruct (IH _ _ eq_refl) as (H1 & H2 & H3).
-      repeat split; auto. intros x [->|Hx]; auto.
+    + destruct (take_inflight i r) as [[[z zm] r']|]; [|discriminate].
+      inversion H; subst. destruct (IH _ _ _ eq_refl) as (H1 & H2 & H3).
+      repeat split; auto. intros x [<-|Hx]; auto.
 Qed.
 
 Lemma reset_timer_head tl now j r :
-  tl = j :: r -> exists t, reset_timer tl now = Some t /\ j_next j <= t.
+  tl = j :: r -> exists t, reset_timer false tl now = Some t /\ j_next j <= t.
 Proof.
   intros ->. simpl. eexists. split; [reflexivity|]. lia.
 Qed.
@@ -176,13 +247,13 @@ Qed.
 Lemma step_sorted c o :
   StronglySorted next_le (c_tl c) -> StronglySorted next_le (c_tl (step c o)).
 Proof.
-  intros H. destruct o; simpl.
-  - sched; [apply tl_rem_sorted|apply tl_insert_sorted, tl_rem_sorted]; auto.
+  intros H. destruct o; try rewrite step_rem; simpl.
+  - sched; auto. apply tl_insert_sorted, tl_rem_sorted; auto.
   - apply tl_rem_sorted; auto.
   - destruct (c_tl c) as [|j r] eqn:E; simpl; auto.
-    destruct (j_next j <=? now); simpl; auto. inversion H; auto.
-  - destruct (take_inflight id (c_inflight c)) as [[j rest]|]; auto.
-    destruct (j_rec j); simpl; auto.
+    destruct (negb (c_susp c) && (j_next j <=? now)); simpl; auto. inversion H; auto.
+  - destruct (take_inflight id (c_inflight c)) as [[[j m] rest]|]; auto.
+    destruct (j_rec j && negb m); simpl; auto.
     sched. apply tl_insert_sorted, tl_rem_sorted; auto.
   - auto.
   - destruct (c_susp c); simpl; auto.
@@ -201,14 +272,14 @@ Qed.
 
 Lemma step_nodup c o : NoDup (map j_id (c_tl c)) -> NoDup (map j_id (c_tl (step c o))).
 Proof.
-  intros H. destruct o; simpl.
+  intros H. destruct o; try rewrite step_rem; simpl.
   - destruct (tl_rem_nodup id _ H) as [H1 H2].
     sched; auto. apply tl_insert_nodup; auto.
   - apply tl_rem_nodup; auto.
   - destruct (c_tl c) as [|j r] eqn:E; simpl; auto.
-    destruct (j_next j <=? now); simpl; auto. inversion H; auto.
-  - destruct (take_inflight id (c_inflight c)) as [[j rest]|]; auto.
-    destruct (j_rec j); simpl; auto.
+    destruct (negb (c_susp c) && (j_next j <=? now)); simpl; auto. inversion H; auto.
+  - destruct (take_inflight id (c_inflight c)) as [[[j m] rest]|]; auto.
+    destruct (j_rec j && negb m); simpl; auto.
     destruct (tl_rem_nodup id _ H) as [H1 H2].
     sched. apply tl_insert_nodup; auto.
   - auto.
@@ -216,13 +287,15 @@ Proof.
   - auto.
 Qed.
 
-Theorem unique_ids : unique_ids_statement.
+Lemma run_nodup ops limit : NoDup (map j_id (c_tl (run ops (cron_init limit)))).
 Proof.
-  intros ops limit.
   apply (run_inv (fun c => NoDup (map j_id (c_tl c)))).
   - intros; apply step_nodup; auto.
   - simpl. constructor.
 Qed.
+
+Theorem unique_ids : unique_ids_statement.
+Proof. intros ops limit. apply run_nodup. Qed.
 
 (** * No early firing, and every firing was scheduled *)
 
@@ -256,12 +329,11 @@ Proof.
     apply ws_js. apply job_sched_mono. apply ws_js. auto.
 Qed.
 
-Lemma nef_insert ops o c j tl1 armed :
+Lemma nef_insert ops o c j tl1 infl s lim armed :
   nef_inv ops c ->
   (forall x, In x tl1 -> In x (c_tl c)) ->
   job_sched (ops ++ [o])%list j ->
-  nef_inv (ops ++ [o])%list
-    (mkCron (tl_insert j tl1) (c_inflight c) (c_susp c) (c_limit c) armed (c_fires c)).
+  nef_inv (ops ++ [o])%list (mkCron (tl_insert j tl1) infl s lim armed (c_fires c)).
 Proof.
   intros Hinv Hsub Hj.
   destruct (nef_mono ops o c c Hinv (fun _ h => h) eq_refl) as [H1 H2].
@@ -271,17 +343,17 @@ Qed.
 
 Lemma step_nef ops c o : nef_inv ops c -> nef_inv (ops ++ [o])%list (step c o).
 Proof.
-  intros Hinv. destruct o; simpl.
+  intros Hinv. destruct o; try rewrite step_rem; simpl.
   - sched.
-    + apply (nef_mono ops _ c); auto. simpl. intros j. apply tl_rem_In.
-    + apply nef_insert; auto.
+    + apply (nef_mono ops _ c); auto.
+    + apply (nef_insert ops _ c); auto.
       * intros x. apply tl_rem_In.
       * left. simpl. exists now. apply in_or_app. right. left. reflexivity.
   - apply (nef_mono ops _ c); auto. simpl. intros j. apply tl_rem_In.
   - destruct (c_tl c) as [|j r] eqn:E.
     + apply (nef_mono ops _ c); auto. simpl. rewrite E. auto.
-    + destruct (j_next j <=? now) eqn:L.
-      * apply Z.leb_le in L.
+    + destruct (negb (c_susp c) && (j_next j <=? now)) eqn:L.
+      * apply Bool.andb_true_iff in L. destruct L as [_ L]. apply Z.leb_le in L.
         destruct (nef_mono ops (CTick now) c c Hinv (fun _ h => h) eq_refl) as [H1 H2].
         split; simpl.
         -- intros x Hx. apply H1. rewrite E. right. auto.
@@ -291,12 +363,11 @@ Proof.
              by (apply H1; rewrite E; left; reflexivity).
            destruct j; exact Hj.
       * apply (nef_mono ops _ c); auto. simpl. rewrite E. auto.
-  - destruct (take_inflight id (c_inflight c)) as [[j rest]|] eqn:T.
-    + destruct (j_rec j).
+  - destruct (take_inflight id (c_inflight c)) as [[[j m] rest]|] eqn:T.
+    + destruct (j_rec j && negb m).
       * sched.
-        apply (nef_insert ops _ (mkCron (c_tl c) rest (c_susp c) (c_limit c) (c_armed c) (c_fires c))).
-        -- destruct Hinv as [H1 H2]. split; simpl; auto.
-        -- simpl. intros x. apply tl_rem_In.
+        apply (nef_insert ops _ c); auto.
+        -- intros x. apply tl_rem_In.
         -- right. simpl. split; auto. exists now. apply in_or_app. right. left. reflexivity.
       * apply (nef_mono ops _ c); auto.
     + apply (nef_mono ops _ c); auto.
@@ -357,7 +428,7 @@ Lemma step_count id r c o :
   (quantity id r (step c o)
    <= quantity id r c + b2n (is_add id r o) + b2n (r && is_done id o))%nat.
 Proof.
-  unfold quantity. destruct o; simpl.
+  unfold quantity. destruct o; try rewrite step_rem; simpl.
   - rewrite Bool.andb_false_r. simpl.
     pose proof (pendl_rem id r id0 (c_tl c)).
     sched.
@@ -367,11 +438,11 @@ Proof.
     pose proof (pendl_rem id r id0 (c_tl c)). lia.
   - rewrite Bool.andb_false_r. simpl.
     destruct (c_tl c) as [|j t] eqn:E; simpl; try lia.
-    destruct (j_next j <=? now); simpl.
+    destruct (negb (c_susp c) && (j_next j <=? now)); simpl.
     + rewrite cf_cons, pendl_cons. unfold is_fire, is_job. simpl. lia.
     + lia.
-  - destruct (take_inflight id0 (c_inflight c)) as [[j rest]|]; [|lia].
-    destruct (j_rec j); simpl; [|lia].
+  - destruct (take_inflight id0 (c_inflight c)) as [[[j m] rest]|]; [|lia].
+    destruct (j_rec j && negb m); simpl; [|lia].
     pose proof (pendl_rem id r id0 (c_tl c)).
     sched. rewrite pendl_insert. unfold is_job at 1. simpl.
     destruct r, (String.eqb id0 id); simpl; lia.
@@ -408,65 +479,100 @@ Proof.
   unfold quantity in H. simpl in H. unfold count_fires. unfold cf in H. lia.
 Qed.
 
-(** * A job removed while pending never fires *)
+(** * A removed job never fires and is not pending *)
 
-Definition absent (id : string) (c : cron) : Prop :=
-  ~ In id (map j_id (c_tl c)) /\ ~ In id (map j_id (c_inflight c)).
+(** The id is not on the timeline, and every running entry with the id is
+    marked [removed]. *)
+Definition gone (id : string) (c : cron) : Prop :=
+  ~ In id (map j_id (c_tl c)) /\
+  (forall j m, In (j, m) (c_inflight c) -> j_id j = id -> m = true).
 
-Lemma not_in_ids_sub id (l l' : list cjob) :
-  (forall x, In x l' -> In x l) -> ~ In id (map j_id l) -> ~ In id (map j_id l').
+Lemma marked_keeps id i l :
+  (forall j m, In (j, m) l -> j_id j = id -> m = true) ->
+  forall j m, In (j, m) (snd (mark_removed i l)) -> j_id j = id -> m = true.
 Proof.
-  intros Hs Hn Hin. apply Hn. rewrite in_map_iff in *.
-  destruct Hin as (x & Hx & Hi). exists x. auto.
+  intros H j m Hin Hid. destruct (mark_removed_In _ _ _ _ Hin); eauto.
 Qed.
 
-Lemma step_absent id c o :
-  absent id c -> (forall i next r now, o = CAdd i next r now -> i <> id) ->
-  absent id (step c o) /\ fires_of id (step c o) = fires_of id c.
+Lemma step_gone id c o :
+  gone id c -> (forall i next r now, o = CAdd i next r now -> i <> id) ->
+  gone id (step c o) /\ fires_of id (step c o) = fires_of id c.
 Proof.
-  unfold absent, fires_of. intros [Ht Hi] Hno. destruct o; simpl.
+  unfold gone, fires_of. intros [Ht Hi] Hno. destruct o; try rewrite step_rem; simpl.
   - assert (Hne : id0 <> id) by (eapply Hno; reflexivity).
     assert (Hr : ~ In id (map j_id (snd (tl_rem id0 (c_tl c)))))
       by (intro Hx; apply Ht; eapply tl_rem_In_id; eauto).
     sched; repeat split; auto.
-    rewrite tl_insert_In_id. simpl. intros [?|?]; auto.
-  - repeat split; auto. intro Hx; apply Ht; eapply tl_rem_In_id; eauto.
+    + rewrite tl_insert_In_id. simpl. intros [?|?]; auto.
+    + apply marked_keeps; auto.
+  - repeat split; auto.
+    + intro Hx; apply Ht; eapply tl_rem_In_id; eauto.
+    + apply marked_keeps; auto.
   - destruct (c_tl c) as [|j t] eqn:E; simpl; auto.
-    destruct (j_next j <=? now); simpl; auto.
+    destruct (negb (c_susp c) && (j_next j <=? now)); simpl; auto.
     simpl in Ht.
     destruct (String.eqb (j_id j) id) eqn:Q.
     + apply String.eqb_eq in Q. exfalso. auto.
-    + apply String.eqb_neq in Q. repeat split; auto. intros [?|?]; auto.
-  - destruct (take_inflight id0 (c_inflight c)) as [[j rest]|] eqn:T; auto.
-    destruct (take_inflight_spec _ _ _ _ T) as (H1 & H2 & H3).
+    + apply String.eqb_neq in Q. repeat split; auto.
+      intros j' m' [H|H] Hid; eauto. inversion H; subst. contradiction.
+  - destruct (take_inflight id0 (c_inflight c)) as [[[j m] rest]|] eqn:T; auto.
+    destruct (take_inflight_spec _ _ _ _ _ T) as (H1 & H2 & H3).
+    assert (Hrest : forall j' m', In (j', m') rest -> j_id j' = id -> m' = true)
+      by (intros j' m' Hin; apply Hi; auto).
+    destruct (j_rec j && negb m) eqn:R; simpl; auto.
     assert (Hne : id0 <> id).
-    { intros ->. apply Hi. rewrite in_map_iff. exists j. auto. }
-    assert (Hrest : ~ In id (map j_id rest)) by (eapply not_in_ids_sub; eauto).
-    destruct (j_rec j); simpl; auto.
+    { intros ->. rewrite (Hi j m H2 H1) in R. rewrite Bool.andb_false_r in R. discriminate. }
     assert (Hr : ~ In id (map j_id (snd (tl_rem id0 (c_tl c)))))
       by (intro Hx; apply Ht; eapply tl_rem_In_id; eauto).
     sched. repeat split; auto.
-    rewrite tl_insert_In_id. simpl. intros [?|?]; auto.
+    + rewrite tl_insert_In_id. simpl. intros [?|?]; auto.
+    + apply marked_keeps; auto.
   - auto.
   - destruct (c_susp c); simpl; auto.
   - auto.
 Qed.
 
-Lemma run_absent id ops : forall c,
-  absent id c -> no_add id ops -> fires_of id (run ops c) = fires_of id c.
+Lemma run_gone id ops : forall c,
+  gone id c -> no_add id ops ->
+  gone id (run ops c) /\ fires_of id (run ops c) = fires_of id c.
 Proof.
   induction ops as [|o ops IH]; intros c Ha Hno; simpl; auto.
-  destruct (step_absent id c o Ha) as [Ha' Hf].
+  destruct (step_gone id c o Ha) as [Ha' Hf].
   - intros i next r now ->. eapply Hno. left. reflexivity.
-  - rewrite IH; auto. intros i next r now Hin. eapply Hno. right. eauto.
+  - destruct (IH (step c o) Ha') as [Hg Hfs].
+    + intros i next r now Hin. eapply Hno. right. eauto.
+    + split; auto. rewrite Hfs. exact Hf.
 Qed.
 
-Theorem removed_pending_never_fires : removed_pending_never_fires_statement.
+Lemma rem_gone ops1 limit id now :
+  gone id (step (run ops1 (cron_init limit)) (CRem id now)) /\
+  fires_of id (step (run ops1 (cron_init limit)) (CRem id now))
+  = fires_of id (run ops1 (cron_init limit)).
 Proof.
-  intros ops1 ops2 limit id s1 Hfree Hno.
-  rewrite run_absent; auto.
-  split; simpl; auto.
-  apply tl_rem_nodup. apply unique_ids.
+  rewrite step_rem. unfold gone, fires_of. simpl. repeat split.
+  - apply tl_rem_nodup. apply run_nodup.
+  - apply mark_removed_marks.
+Qed.
+
+Theorem removed_never_fires : removed_never_fires_statement.
+Proof.
+  intros ops1 ops2 limit id now s1 Hno. subst s1.
+  destruct (rem_gone ops1 limit id now) as [Hg Hf].
+  destruct (run_gone id ops2 _ Hg Hno) as [_ Hfs].
+  rewrite Hfs. exact Hf.
+Qed.
+
+Theorem removed_not_pending : removed_not_pending_statement.
+Proof.
+  intros ops1 ops2 limit id now s1 Hno. subst s1.
+  destruct (rem_gone ops1 limit id now) as [Hg Hf].
+  destruct (run_gone id ops2 _ Hg Hno) as [[Hn _] _]. exact Hn.
+Qed.
+
+Theorem rem_found_iff : rem_found_iff_statement.
+Proof.
+  intros c id. unfold rem_found. rewrite c_rem_eq. simpl.
+  rewrite Bool.orb_true_iff, tl_rem_found, mark_removed_found. tauto.
 Qed.
 
 (** * Suspend, resume, pause *)
@@ -476,21 +582,54 @@ Proof.
   intros c now. unfold same_jobs. simpl. destruct (c_susp c); simpl; auto 10.
 Qed.
 
-Lemma quiet_run ops : forall c,
-  c_armed c = None -> Forall quiet_op ops -> timer_driven c ops ->
-  c_fires (run ops c) = c_fires c.
+Lemma step_susp_quiet c o :
+  c_susp c = true -> no_resume o ->
+  c_fires (step c o) = c_fires c /\ c_susp (step c o) = true.
 Proof.
-  induction ops as [|o ops IH]; intros c Ha Hq Ht; simpl; auto.
-  inversion Hq as [|? ? Hq1 Hq2]; subst. destruct Ht as [Ht1 Ht2].
-  destruct o; simpl in Hq1; try contradiction.
-  - rewrite IH; auto.
-  - unfold tick_enabled in Ht1. rewrite Ha in Ht1. discriminate.
-  - rewrite IH; auto.
+  intros Hs Ho. destruct o; try rewrite step_rem; simpl in *; auto.
+  - sched; auto.
+  - rewrite Hs. simpl. destruct (c_tl c); simpl; auto.
+  - destruct (take_inflight id (c_inflight c)) as [[[j m] rest]|]; auto.
+    destruct (j_rec j && negb m); simpl; auto. sched. auto.
+  - contradiction.
 Qed.
 
 Theorem suspended_quiet : suspended_quiet_statement.
 Proof.
-  intros c ops Hq Ht. rewrite quiet_run; auto.
+  intros c ops. revert c. induction ops as [|o ops IH]; intros c Hs Hf; simpl; auto.
+  inversion Hf as [|? ? Ho Hf']; subst.
+  destruct (step_susp_quiet c o Hs Ho) as [H1 H2].
+  destruct (IH (step c o) H2 Hf') as [H3 H4]. split; auto. rewrite H3. exact H1.
+Qed.
+
+Definition stopped_inv (c : cron) : Prop := c_susp c = true -> c_armed c = None.
+
+Lemma step_stopped c o : stopped_inv c -> stopped_inv (step c o).
+Proof.
+  unfold stopped_inv. intros Hinv. destruct o; try rewrite step_rem; simpl.
+  - sched; auto. intros Hs. rewrite Hs. reflexivity.
+  - intros Hs. rewrite Hs. simpl.
+    destruct (fst (tl_rem id (c_tl c)) || fst (mark_removed id (c_inflight c))); auto.
+  - destruct (c_tl c) as [|j t]; simpl.
+    + intros Hs. rewrite (Hinv Hs). reflexivity.
+    + destruct (negb (c_susp c) && (j_next j <=? now)); simpl; intros Hs.
+      * rewrite Hs. reflexivity.
+      * rewrite (Hinv Hs). reflexivity.
+  - destruct (take_inflight id (c_inflight c)) as [[[j m] rest]|]; auto.
+    destruct (j_rec j && negb m); simpl; auto. sched. intros Hs. rewrite Hs. reflexivity.
+  - intros _. reflexivity.
+  - destruct (c_susp c) eqn:S; simpl.
+    + discriminate.
+    + rewrite S. discriminate.
+  - intros Hs. rewrite Hs. reflexivity.
+Qed.
+
+Theorem suspended_timer_stopped : suspended_timer_stopped_statement.
+Proof.
+  intros ops limit.
+  apply (run_inv stopped_inv).
+  - intros; apply step_stopped; auto.
+  - intros _. reflexivity.
 Qed.
 
 Theorem resume_rearms : resume_rearms_statement.
@@ -498,65 +637,85 @@ Proof.
   intros c now j r Hs Ht. simpl. rewrite Hs. simpl. rewrite Ht. simpl. auto.
 Qed.
 
-(** * Without Rem and Suspend the timer is armed for the head *)
+(** * The timer is armed for the head in every reachable, not suspended state *)
 
 Definition armed_inv (c : cron) : Prop :=
-  forall j r, c_tl c = j :: r -> exists t, c_armed c = Some t /\ j_next j <= t.
+  forall j r, c_tl c = j :: r -> c_susp c = false ->
+    exists t, c_armed c = Some t /\ j_next j <= t.
 
-Lemma step_armed c o n :
-  no_rem_susp o -> armed_inv c -> (length (c_tl c) <= n)%nat -> Z.of_nat n < c_limit c ->
-  armed_inv (step c o) /\ (length (c_tl (step c o)) <= S n)%nat /\
-  c_limit (step c o) = c_limit c.
+Lemma step_armed c o : armed_inv c -> armed_inv (step c o).
 Proof.
-  unfold armed_inv. intros Ho Hinv Hlen Hlim. destruct o; simpl in Ho; try contradiction; simpl.
-  - pose proof (tl_rem_length id (c_tl c)) as Hl.
-    sched.
-    + exfalso. lia.
-    + repeat split; auto.
-      * intros j r. apply reset_timer_head.
-      * rewrite tl_insert_length. lia.
+  unfold armed_inv. intros Hinv. destruct o; try rewrite step_rem; simpl.
+  - sched; auto. intros j r Heq Hs. rewrite Hs. eapply reset_timer_head; eauto.
+  - intros j r Heq Hs. rewrite Hs.
+    destruct (fst (tl_rem id (c_tl c)) || fst (mark_removed id (c_inflight c))) eqn:F.
+    + eapply reset_timer_head; eauto.
+    + apply Bool.orb_false_elim in F. destruct F as [F _].
+      rewrite (tl_rem_notfound _ _ F) in Heq. eauto.
   - destruct (c_tl c) as [|j t] eqn:E; simpl.
-    + repeat split; auto; try lia. intros; discriminate.
-    + destruct (j_next j <=? now) eqn:L; simpl.
-      * simpl in Hlen. repeat split; auto; try lia.
-        intros j' r'. apply reset_timer_head.
-      * apply Z.leb_gt in L. repeat split; auto.
-        intros j' r' Heq. inversion Heq; subst.
-        destruct (Hinv j' r' eq_refl) as (t0 & Ht0 & Hle). rewrite Ht0. simpl.
+    + intros; discriminate.
+    + destruct (negb (c_susp c) && (j_next j <=? now)) eqn:L; simpl.
+      * intros j' r' Heq Hs. rewrite Hs. eapply reset_timer_head; eauto.
+      * intros j' r' Heq Hs. inversion Heq; subst.
+        rewrite Hs in L. simpl in L. apply Z.leb_gt in L.
+        destruct (Hinv j' r' eq_refl Hs) as (t0 & Ht0 & Hle). rewrite Ht0. simpl.
         destruct (t0 <=? now) eqn:L2.
         -- apply Z.leb_le in L2. exfalso. lia.
         -- exists t0. auto.
-  - destruct (take_inflight id (c_inflight c)) as [[j rest]|]; auto.
-    destruct (j_rec j); simpl; auto.
-    pose proof (tl_rem_length id (c_tl c)) as Hl.
-    sched. repeat split; auto.
-    + intros j' r'. apply reset_timer_head.
-    + rewrite tl_insert_length. lia.
-  - destruct (c_susp c); simpl; auto.
-    repeat split; auto. intros j r. apply reset_timer_head.
-  - repeat split; auto. intros j r. apply reset_timer_head.
+  - destruct (take_inflight id (c_inflight c)) as [[[j m] rest]|]; auto.
+    destruct (j_rec j && negb m); simpl; auto.
+    sched. intros j' r' Heq Hs. rewrite Hs. eapply reset_timer_head; eauto.
+  - intros; discriminate.
+  - destruct (c_susp c) eqn:S; simpl.
+    + intros j r Heq _. eapply reset_timer_head; eauto.
+    + intros j r Heq _. eauto.
+  - intros j r Heq Hs. rewrite Hs. eapply reset_timer_head; eauto.
 Qed.
 
-Lemma run_armed ops : forall c n,
-  Forall no_rem_susp ops -> armed_inv c -> (length (c_tl c) <= n)%nat ->
-  Z.of_nat n + Z.of_nat (length ops) <= c_limit c ->
-  armed_inv (run ops c).
+Lemma run_armed ops limit : armed_inv (run ops (cron_init limit)).
 Proof.
-  induction ops as [|o ops IH]; intros c n Hf Hinv Hlen Hlim; simpl; auto.
-  inversion Hf as [|? ? Ho Hf']; subst.
-  simpl length in Hlim.
-  destruct (step_armed c o n Ho Hinv Hlen) as (H1 & H2 & H3); [lia|].
-  apply (IH _ (S n)); auto. rewrite H3. lia.
+  apply (run_inv armed_inv).
+  - intros; apply step_armed; auto.
+  - intros j r H. discriminate.
 Qed.
 
-Theorem timer_armed_without_rem : timer_armed_without_rem_statement.
+Theorem timer_armed_invariant : timer_armed_invariant_statement.
 Proof.
-  intros ops limit j r Hf Hlim.
-  apply (run_armed ops (cron_init limit) 0%nat).
-  - exact Hf.
-  - intros j' r' H. discriminate.
-  - simpl. lia.
-  - simpl. lia.
+  intros ops limit j r Ht Hs. apply (run_armed ops limit j r Ht Hs).
+Qed.
+
+Theorem never_stalled : never_stalled_statement.
+Proof.
+  intros ops limit. pose proof (run_armed ops limit) as H.
+  unfold stalled, armed_inv in *.
+  destruct (c_tl (run ops (cron_init limit))) as [|j r]; auto.
+  destruct (c_armed (run ops (cron_init limit))) as [t|] eqn:A; auto.
+  destruct (c_susp (run ops (cron_init limit))); auto.
+  destruct (H j r eq_refl eq_refl) as (t & Ht & _). discriminate.
+Qed.
+
+Theorem rem_rearms_timer : rem_rearms_timer_statement.
+Proof.
+  intros c id now j r Hs Hf. unfold rem_found in Hf. rewrite c_rem_eq in Hf. simpl in Hf.
+  rewrite step_rem. simpl. rewrite Hf, Hs. intros ->. reflexivity.
+Qed.
+
+(** * Add: refusal has no effect, acceptance is decided by the limit *)
+
+Theorem refused_add_no_effect : refused_add_no_effect_statement.
+Proof.
+  intros c id next recurring now. unfold add_ok. simpl.
+  destruct (schedule_spec c (mkJob id next recurring) true now) as [(_ & _ & E)|(_ & E)];
+    rewrite E; simpl; auto. discriminate.
+Qed.
+
+Theorem add_ok_iff : add_ok_iff_statement.
+Proof.
+  intros c id next recurring now. unfold add_ok. simpl.
+  destruct (schedule_spec c (mkJob id next recurring) true now) as [(_ & Ho & E)|([Hb|Ho] & E)];
+    rewrite E; simpl in *; try discriminate.
+  - rewrite Ho. split; [reflexivity|discriminate].
+  - rewrite Ho. split; [reflexivity|]. intros _. apply tl_insert_In. auto.
 Qed.
 
 (** * sort.Search finds the position of the linear insert *)
@@ -653,77 +812,92 @@ Proof.
   - symmetry. apply insert_at_first_later; auto.
 Qed.
 
-(** * Closed counterexamples (defects of the implementation, visible in the model) *)
+(** * The repaired behaviour on the traces that exhibited the defects *)
 
-(** D26: a recurring job removed while its callback runs re-schedules itself
-    when the callback returns, and fires again after the removal. *)
-Lemma removed_inflight_recurring_counterexample :
-  let ops := [CAdd "j" 1000 true 0; CTick 1000; CRem "j"; CDone "j" 1001 2000; CTick 2000] in
-  rem_found (run (firstn 2 ops) (cron_init 10)) "j" = false /\
-  map f_now (fires_of "j" (run ops (cron_init 10))) = [2000; 1000].
-Proof. vm_compute. split; reflexivity. Qed.
+(** D26 repaired: a recurring job removed while its callback runs is found by
+    Rem, does not re-schedule itself and does not fire again. *)
+Example removed_inflight_recurring_fixed_example :
+  let ops := [CAdd "j" 1000 true 0; CTick 1000; CRem "j" 1001; CDone "j" 1002 2000; CTick 2000] in
+  rem_found (run (firstn 2 ops) (cron_init 10)) "j" = true /\
+  map f_now (fires_of "j" (run ops (cron_init 10))) = [1000] /\
+  c_tl (run ops (cron_init 10)) = [].
+Proof. vm_compute. repeat split; reflexivity. Qed.
 
-(** Same root cause: the re-scheduling of the returning recurring job replaces
-    a job of the same id added meanwhile. *)
-Lemma readd_inflight_lost_counterexample :
+(** Same repair: the job added while the callback of the old one runs is kept. *)
+Example readd_inflight_kept_example :
   let ops := [CAdd "j" 1000 true 0; CTick 1000; CAdd "j" 9000 false 1001; CDone "j" 1002 2000] in
-  c_tl (run ops (cron_init 10)) = [mkJob "j" 2000 true].
+  c_tl (run ops (cron_init 10)) = [mkJob "j" 9000 false].
 Proof. vm_compute. reflexivity. Qed.
 
-(** D38: removing the head leaves the timer stopped after its (now useless)
-    expiry: the remaining job is pending, nothing is suspended, no timer. *)
-Lemma rem_head_stalls_counterexample :
-  let ops := [CAdd "a" 200 false 0; CAdd "b" 400 false 0; CRem "a"; CTick 200] in
-  timer_driven (cron_init 10) ops /\
-  stalled (run ops (cron_init 10)) = true /\
-  c_tl (run ops (cron_init 10)) = [mkJob "b" 400 false].
+(** D38 repaired: removing the head re-arms the timer for the new head. *)
+Example rem_head_rearms_example :
+  let ops := [CAdd "a" 200 false 0; CAdd "b" 400 false 0; CRem "a" 10; CTick 200] in
+  let c := run ops (cron_init 10) in
+  stalled c = false /\ c_armed c = Some 400 /\ c_tl c = [mkJob "b" 400 false].
 Proof. vm_compute. repeat split; reflexivity. Qed.
 
-(** D49: an Add while suspended re-arms the timer, and the loop's tick branch
-    does not look at the suspended flag: a job fires while suspended. *)
-Lemma add_while_suspended_fires_counterexample :
+(** D49 repaired: an Add while suspended arms nothing, a timer value does not
+    fire anything, and Resume arms the timer for the (overdue) head. *)
+Example add_while_suspended_quiet_example :
   let ops := [CAdd "a" 100 false 0; CSuspend; CAdd "b" 5000 false 50; CTick 100] in
-  timer_driven (cron_init 10) ops /\
-  c_susp (run ops (cron_init 10)) = true /\
-  map f_id (c_fires (run ops (cron_init 10))) = ["a"].
+  let c := run ops (cron_init 10) in
+  c_fires c = [] /\ c_armed c = None /\ c_armed (step c (CResume 300)) = Some 300.
 Proof. vm_compute. repeat split; reflexivity. Qed.
 
-(** schedule removes the job with the same id before the limit check: an Add
-    of an id that is pending, refused at capacity, deletes the pending job. *)
-Lemma add_at_capacity_drops_job_counterexample :
+(** D50 repaired: an Add refused at capacity leaves the pending job alone. *)
+Example add_at_capacity_refused_keeps_job_example :
   let ops := [CAdd "a" 100 true 0; CTick 100; CAdd "b" 200 false 101; CDone "a" 102 300] in
   let c := run ops (cron_init 1) in
   map j_id (c_tl c) = ["b"; "a"] /\
   add_ok c "b" 250 false 103 = false /\
-  map j_id (c_tl (step c (CAdd "b" 250 false 103))) = ["a"].
+  step c (CAdd "b" 250 false 103) = c.
 Proof. vm_compute. repeat split; reflexivity. Qed.
 
 (** * The hypotheses of the conditional theorems are satisfiable *)
 
-Example removed_pending_hyps_sat :
+(** The id is running (recurring, not marked) at the Rem, and the rest of the
+    trace contains the return of its callback and a tick at the instant it
+    would have fired again. *)
+Example removed_never_fires_hyps_sat :
   exists ops1 ops2 limit id,
-    In id (map j_id (c_tl (run ops1 (cron_init limit)))) /\
-    inflight_free id (run ops1 (cron_init limit)) /\ no_add id ops2 /\ ops2 <> [].
+    (exists j, In (j, false) (c_inflight (run ops1 (cron_init limit))) /\
+               j_id j = id /\ j_rec j = true) /\
+    no_add id ops2 /\ In (CDone id 1002 2000) ops2 /\ In (CTick 2000) ops2.
 Proof.
-  exists [CAdd "j" 1000 false 0], [CTick 1000], 10, "j".
+  exists [CAdd "j" 1000 true 0; CTick 1000], [CDone "j" 1002 2000; CTick 2000], 10, "j".
   split; [|split; [|split]].
-  - vm_compute. auto.
-  - vm_compute. auto.
-  - intros i next r now [H|[]]. discriminate.
-  - discriminate.
+  - exists (mkJob "j" 1000 true). vm_compute. auto.
+  - intros i next r now [H|[H|[]]]; discriminate.
+  - simpl. auto.
+  - simpl. auto.
 Qed.
 
+(** A suspended state with a due head, and a trace without Resume containing
+    an Add and a tick at an instant the head is due. *)
 Example suspended_quiet_hyps_sat :
-  exists c ops, c_tl c <> [] /\ Forall quiet_op ops /\
-                timer_driven (step c CSuspend) ops /\ ops <> [].
+  exists c ops j r now,
+    c_susp c = true /\ Forall no_resume ops /\
+    c_tl c = j :: r /\ j_next j <= now /\
+    In (CTick now) ops /\ In (CAdd "b" 5000 false 50) ops.
 Proof.
-  exists (run [CAdd "a" 100 false 0; CAdd "b" 200 false 0] (cron_init 10)),
-         [CRem "a"; CSuspend].
-  split; [|split; [|split]].
-  - vm_compute. discriminate.
+  exists (run [CAdd "a" 100 false 0; CSuspend] (cron_init 10)),
+         [CAdd "b" 5000 false 50; CTick 100; CRem "b" 120; CPause 150],
+         (mkJob "a" 100 false), [], 100.
+  split; [|split; [|split; [|split; [|split]]]].
+  - vm_compute. reflexivity.
   - repeat constructor.
-  - vm_compute. auto.
-  - discriminate.
+  - vm_compute. reflexivity.
+  - simpl. lia.
+  - simpl. auto.
+  - simpl. auto.
+Qed.
+
+Example suspended_timer_stopped_hyps_sat :
+  exists ops limit, c_susp (run ops (cron_init limit)) = true /\
+                    c_tl (run ops (cron_init limit)) <> [].
+Proof.
+  exists [CAdd "a" 100 false 0; CSuspend; CAdd "b" 50 false 10; CPause 20], 10.
+  vm_compute. split; [reflexivity|discriminate].
 Qed.
 
 Example resume_rearms_hyps_sat :
@@ -733,16 +907,36 @@ Proof.
   vm_compute. split; reflexivity.
 Qed.
 
-Example timer_armed_hyps_sat :
-  exists ops limit j r, Forall no_rem_susp ops /\ Z.of_nat (length ops) <= limit /\
-                        c_tl (run ops (cron_init limit)) = j :: r.
+(** A trace with a Rem (of the head) that ends not suspended with a
+    non-empty timeline. *)
+Example timer_armed_invariant_hyps_sat :
+  exists ops limit j r,
+    In (CRem "a" 10) ops /\
+    c_tl (run ops (cron_init limit)) = j :: r /\
+    c_susp (run ops (cron_init limit)) = false.
 Proof.
-  exists [CAdd "a" 100 true 0; CAdd "b" 50 false 1; CTick 50; CDone "b" 60 0; CPause 70],
-         10, (mkJob "a" 100 true), [].
+  exists [CAdd "a" 200 false 0; CAdd "b" 400 false 0; CRem "a" 10; CTick 200],
+         10, (mkJob "b" 400 false), [].
   split; [|split].
-  - repeat constructor.
-  - vm_compute. discriminate.
+  - simpl. auto.
   - vm_compute. reflexivity.
+  - vm_compute. reflexivity.
+Qed.
+
+Example rem_rearms_timer_hyps_sat :
+  exists c id now j r, c_susp c = false /\ rem_found c id = true /\
+                       c_tl (step c (CRem id now)) = j :: r.
+Proof.
+  exists (run [CAdd "a" 200 false 0; CAdd "b" 400 false 0] (cron_init 10)),
+         "a", 10, (mkJob "b" 400 false), [].
+  vm_compute. repeat split; reflexivity.
+Qed.
+
+Example refused_add_hyps_sat :
+  exists c id next recurring now, add_ok c id next recurring now = false.
+Proof.
+  exists (run [CAdd "a" 100 true 0] (cron_init 1)), "b", 200, false, 10.
+  vm_compute. reflexivity.
 Qed.
 
 Example search_hyps_sat :
